@@ -236,3 +236,61 @@ class ModelFile:
     def __exit__(self, *exc):
         self.close()
         return False
+
+
+class ModelFSSpec:
+    """fsspec-style file system on top of ModelFS (what FileSet.file_system needs)."""
+
+    def __init__(self, fs):
+        self.fs = fs
+
+    def _dirs(self):
+        out = set(self.fs.dirs)
+        for p in self.fs.files:
+            parts = p.split("/")
+            for i in range(1, len(parts)):
+                d = "/".join(parts[:i])
+                if d:
+                    out.add(d)
+        return out
+
+    def glob(self, pattern):
+        import re
+        want_dir = pattern.endswith("/")
+        pat = pattern.rstrip("/")
+        rx = re.compile("^" + "".join("[^/]*" if ch == "*" else re.escape(ch) for ch in pat) + "$")
+        self.fs.log.append("glob:" + pattern)
+        if want_dir:
+            return sorted(d for d in self._dirs() if rx.match(d))
+        return sorted([p for p in self.fs.files if rx.match(p)] + [d for d in self._dirs() if rx.match(d)])
+
+    def isfile(self, p):
+        return str(p) in self.fs.files
+
+    def isdir(self, p):
+        return str(p).rstrip("/") in self._dirs()
+
+    def exists(self, p):
+        return self.isfile(p) or self.isdir(p)
+
+    def makedirs(self, p, exist_ok=False):
+        self.fs.dirs.add(str(p).rstrip("/"))
+
+    def copy(self, a, b, **k):
+        self.fs.fault("copy")
+        self.fs.files[str(b)] = self.fs.files[str(a)]
+
+    def move(self, a, b, **k):
+        self.fs.fault("move")
+        self.fs.files[str(b)] = self.fs.files.pop(str(a))
+
+    mv = move
+
+    def rm(self, p, **k):
+        self.fs.unlink(p)
+
+    def open(self, p, mode="rb", **k):
+        return self.fs.open(p, mode)
+
+    def __str__(self):
+        return "ModelFSSpec"
